@@ -114,6 +114,8 @@ U64 ghost_j, ghost_k; int ghost_q;
 /* record layout as documented in transpositionTable.hpp (move 0/16, score 16/16, depth 32/9, busy 41/1,
    generation 42/4, type 46/2, evalScore 48/16) */
 static int spec_rec_move(U64 d)  { return (int)(d & 0xffff); }
+/* 16-bit move code of TTEntry::setMove: from + (to << 6) + (promoteTo << 12) */
+#define SPEC_MOVE_CODE(m) (((m)->from_ + ((m)->to_ << 6) + ((m)->promoteTo_ << 12)) & 0xffff)
 static int spec_rec_depth(U64 d) { return (int)((d >> 32) & 0x1ff); }
 static int spec_rec_busy(U64 d)  { return (int)((d >> 41) & 1); }
 static int spec_rec_gen(U64 d)   { return (int)((d >> 42) & 15); }
@@ -183,6 +185,10 @@ CONTRACTS = {
             '(ghost_j < self->usedSize && ghost_k < self->usedSize && ghost_j != ghost_k) ==> (ENT_EQ(self->table[ghost_j], __CPROVER_old(self->table[ghost_j])) || ENT_EQ(self->table[ghost_k], __CPROVER_old(self->table[ghost_k])))',
             # a changed slot holds one complete record for exactly this key
             '(ghost_j < self->usedSize && !ENT_EQ(self->table[ghost_j], __CPROVER_old(self->table[ghost_j]))) ==> ((self->table[ghost_j].key ^ self->table[ghost_j].data) == (key ^ self->contemptHash) && spec_rec_depth(self->table[ghost_j].data) == (depth < 0 ? 0 : depth) && spec_rec_type(self->table[ghost_j].data) == type && spec_rec_eval(self->table[ghost_j].data) == evalScore && spec_rec_gen(self->table[ghost_j].data) == self->generation && (spec_rec_busy(self->table[ghost_j].data) != 0) == (busy != 0) && spec_rec_score(self->table[ghost_j].data, ply) == sm->score_)',
+            # ... and its move belongs to this writer too: the stored move, except that a record without a move (from == to) written over a record of
+            # the SAME key keeps that record's move; a move of another key's record never survives (no blend of two writers)
+            '(ghost_j < self->usedSize && !ENT_EQ(self->table[ghost_j], __CPROVER_old(self->table[ghost_j]))) ==> (spec_rec_move(self->table[ghost_j].data) == '
+            '(((__CPROVER_old(self->table[ghost_j].key) ^ __CPROVER_old(self->table[ghost_j].data)) == (key ^ self->contemptHash) && sm->from_ == sm->to_) ? spec_rec_move(__CPROVER_old(self->table[ghost_j].data)) : SPEC_MOVE_CODE(sm)))',
         ],
     },
     # setBusy re-inserts a probed record with the ABDADA busy flag: the re-stored record must mean the same as the probed one
@@ -415,6 +421,8 @@ PROPERTIES = {
 }
 
 MUTANTS = [
+    dict(name='insert_setKey_before_move_guard', file='lib/texellib/transpositionTable.cpp', pattern=r'        if \(\(ent.getKey\(\) != key\) \|\| \(sm.from\(\) != sm.to\(\)\)\)\n            ent.setMove\(sm\);\n        ent.setKey\(key\);', repl='        ent.setKey(key);\n        if ((ent.getKey() != key) || (sm.from() != sm.to()))\n            ent.setMove(sm);', groups=['insert']),
+    dict(name='setBusy_score_at_ply0', file='lib/texellib/transpositionTable.cpp', pattern=r'sm.setScore\(ent.getScore\(ply\)\);', repl='sm.setScore(ent.getScore(0));', groups=['setBusy']),
     dict(name='getIndex_shift15', file='lib/texellib/transpositionTable.hpp', pattern=r'    r >>= 16;', repl='    r >>= 15;', groups=['getIndex']),
     dict(name='getIndex_mask_low_bits', file='lib/texellib/transpositionTable.cpp', pattern=r'usedSizeMask = \(\(1ULL << usedSizeShift\) - 1\) & ~3ULL;', repl='usedSizeMask = ((1ULL << usedSizeShift) - 1) & ~1ULL;', groups=['setUsedSize']),
     dict(name='setUsedSize_512', file='lib/texellib/transpositionTable.cpp', pattern=r'while \(topBits >= 256\) \{', repl='while (topBits >= 512) {', groups=['setUsedSize']),
